@@ -11,6 +11,7 @@ theorem pin_chans_Replicate_ok : Juniper.Gen.PinMerge.pin_chans_Replicate = Juni
 theorem pin_chans_merge2_ok : Juniper.Gen.PinMerge.pin_chans_merge2 = Juniper.Pinned.Merge.pin_chans_merge2 := by rfl
 theorem pin_chans_merge3_ok : Juniper.Gen.PinMerge.pin_chans_merge3 = Juniper.Pinned.Merge.pin_chans_merge3 := by rfl
 theorem pin_stream_Merge_ok : Juniper.Gen.PinMerge.pin_stream_Merge = Juniper.Pinned.Merge.pin_stream_Merge := by rfl
+theorem pin_stream_Pipe_ok : Juniper.Gen.PinMerge.pin_stream_Pipe = Juniper.Pinned.Merge.pin_stream_Pipe := by rfl
 theorem pin_stream_PipeSender_Close_ok : Juniper.Gen.PinMerge.pin_stream_PipeSender_Close = Juniper.Pinned.Merge.pin_stream_PipeSender_Close := by rfl
 theorem pin_stream_PipeSender_Send_ok : Juniper.Gen.PinMerge.pin_stream_PipeSender_Send = Juniper.Pinned.Merge.pin_stream_PipeSender_Send := by rfl
 theorem pin_stream_mergeStream_Close_ok : Juniper.Gen.PinMerge.pin_stream_mergeStream_Close = Juniper.Pinned.Merge.pin_stream_mergeStream_Close := by rfl
